@@ -30,6 +30,11 @@ P = {
  "C10": ("Pager.v: with no reader open the next writer can release every pending page (then nothing is withheld); pending pages are the writer's own frees or older ones some reader may see; "
          "reader-visible pages are never reusable; nothing below the mark is lost. Tie: real freelist state and Stats after every writer begin/commit/rollback vs the extracted model and vs the decoder.",
          "The bounded-file-growth corollary is stated through the partition (no id lost); the numeric bound for multi-page runs is not proved.", "DESIGN.md §8 C10"),
+ "C11": ("Theorems: FNV-1a-64 changes under any single-byte change; Meta.Validate is characterised on the 64-byte structure at any file position; ANY single altered byte of magic, version, "
+         "checksummed content or checksum invalidates a valid meta (all positions, all values); open_model presents a state only through a validating meta, rejects when both are invalid or the file "
+         "is shorter than two pages / its high-water mark, falls back to the other meta when exactly one is invalid, prefers the newer when both are valid, and finds the page size through the second "
+         "meta. Tie: real Open vs extracted open_model + decoder on exhaustive single-byte sweeps, partial overwrites, truncations and junk files.",
+         "Arbitrary multi-byte mixtures are covered by the sweep only (a 64-bit hash has collisions). That page 0's tail is zero is an assumption of the page-size theorem (true of every meta page bbolt writes).", "DESIGN.md §8 C11"),
  "C12": ("Round-trip theorems between the published layout as a writer specification (LayoutEnc.v) and the independent reader (Layout.v) for integers and checksummed meta pages at any file position; "
          "every file the implementation writes in generated histories is decoded by the extracted reader and compared with the API's report.",
          "Leaf/branch/freelist page round trips are exercised by the correspondence only (theorems so far: integers, meta).", "DESIGN.md §8 C12"),
